@@ -49,7 +49,24 @@ fn create_and_store_machine_uuid() -> Result<(), std::io::Error> {
     // will be 128bits of data in 32 byte
     debug_assert_eq!(32, uuid.chars().count());
 
-    std::fs::write(MACHINE_ID_FILE_PATH, uuid)
+    // Write the id to a private file first and link that into place: the id file then either does not exist or holds a
+    // complete id (a failed or interrupted write leaves no empty or partial id behind), and if somebody else stored an
+    // id in the meantime that one is kept.
+    static TMP_COUNTER: std::sync::atomic::AtomicUsize = std::sync::atomic::AtomicUsize::new(0);
+    let tmp_path = format!(
+        "{}.{}.{}.tmp",
+        MACHINE_ID_FILE_PATH,
+        std::process::id(),
+        TMP_COUNTER.fetch_add(1, std::sync::atomic::Ordering::SeqCst)
+    );
+    let res = std::fs::write(&tmp_path, uuid).and_then(|_| {
+        match std::fs::hard_link(&tmp_path, MACHINE_ID_FILE_PATH) {
+            Err(e) if e.kind() == std::io::ErrorKind::AlreadyExists => Ok(()),
+            other => other,
+        }
+    });
+    let _ = std::fs::remove_file(&tmp_path);
+    res
 }
 
 fn get_machine_id() -> Result<String, std::io::Error> {
